@@ -31,6 +31,8 @@ CONSTANTS
   Size,        \* configured connections per host (NumConns)
   Triggers,    \* fill() calls made by the environment (Pick, addHost, reconnect)
   Spawned,     \* fill() calls spawned by HandleError
+  Pickers,     \* queries: every Pick() on a pool below its size spawns a fill() (a picker is reused once its fill returned)
+  Defect_PickOnlyEmpty, \* TRUE: Pick() spawns the fill only when the pool is empty
   Closers,     \* Close() calls
   MaxFail,     \* bound on failing connect() calls
   MaxKill,     \* bound on connections closed by the node
@@ -42,8 +44,9 @@ CONSTANTS
   Defect_NoJoin, \* TRUE: connectMany returns at the first failing connect() instead of waiting for every one
   Mut          \* "none", or a protocol mutation (model self-test only)
 
-Fillers == Triggers \cup Spawned
-MaxConn == Size * Cardinality(Fillers)       \* every passing fill starts at most Size connects
+Fillers == Triggers \cup Spawned \cup Pickers
+\* every passing fill starts at most Size connects; a picker's fill can pass once per loss / failure
+MaxConn == Size * (Cardinality(Triggers \cup Spawned) + Cardinality(Pickers) * (MaxKill + MaxFail + 1))
 ConnIds == 1 .. MaxConn
 ASSUME MaxKill <= Cardinality(Spawned)      \* every removal spawns one fill()
 
@@ -95,7 +98,7 @@ StartConnects(f, n, cpc1) ==
 FillCheck(f) ==
   /\ ~lockDead /\ UNCHANGED lockDead
   /\ \/ f \in Triggers /\ fpc[f] = "idle"
-     \/ f \in Spawned /\ fpc[f] = "start"
+     \/ f \in Spawned \cup Pickers /\ fpc[f] = "start"
   /\ fpc' = [fpc EXCEPT ![f] = IF closed \/ filling \/ Cardinality(conns) >= Size THEN "done" ELSE "gate"]
   /\ UNCHANGED <<conns, filling, closed, open, dialed, dead, pendHE, handled, frem, ferr, cpc, cown,
                  nextc, fails, kills, kpc, closeQ>>
@@ -252,17 +255,31 @@ Close2(k) ==
   /\ UNCHANGED <<conns, filling, closed, dialed, dead, pendHE, fpc, frem, ferr, cpc, cown, nextc,
                  fails, kills>>
 
+(* ---- queries ----------------------------------------------------------------
+   Pick(): under the read lock; a pool below its size gets a fill() on a goroutine of its own.  This is what replaces a
+   connection lost while a fill was in progress (HandleError's own fill() returns at the `filling` check) and what makes up
+   for a fill that only partly succeeded.                                                                              *)
+Pick(p) ==
+  /\ ~lockDead /\ UNCHANGED lockDead
+  /\ p \in Pickers /\ fpc[p] \in {"idle", "done"}
+  /\ ~closed
+  /\ IF Defect_PickOnlyEmpty THEN conns = {} ELSE Cardinality(conns) < Size
+  /\ fpc' = [fpc EXCEPT ![p] = "start"]
+  /\ UNCHANGED <<conns, filling, closed, open, dialed, dead, pendHE, handled, frem, ferr, cpc, cown,
+                 nextc, fails, kills, kpc, closeQ>>
+
 (* ---- next-state relation ------------------------------------------------------
    Auto steps are those no gate in the code can hold back (they follow the previous
    step of the same goroutine without a hook outside the lock in between).          *)
 AutoNext ==
   \/ \E f \in Fillers : FillEnd(f)
   \/ \E c \in ConnIds : HandleError(c)
-  \/ \E h \in Spawned : FillCheck(h)
+  \/ \E h \in Spawned \cup Pickers : FillCheck(h)
   \/ \E k \in Closers : Close2(k)
 
 EnvNext ==
   \/ \E f \in Triggers : FillCheck(f)
+  \/ \E p \in Pickers : Pick(p)
   \/ \E c \in ConnIds : Kill(c)
   \/ \E k \in Closers : Close1(k)
 
@@ -275,7 +292,7 @@ CtrlNext ==
 AutoEnabled ==
   \/ \E f \in Fillers : fpc[f] = "end"
   \/ pendHE # {}
-  \/ \E h \in Spawned : fpc[h] = "start"
+  \/ \E h \in Spawned \cup Pickers : fpc[h] = "start"
   \/ \E k \in Closers : kpc[k] = "closing"
 
 Next == IF Eager /\ AutoEnabled THEN AutoNext ELSE AutoNext \/ CtrlNext
@@ -289,6 +306,13 @@ SysNext ==
   \/ \E c \in ConnIds : ConnectAdd(c)
 
 Spec == Init /\ [][Next]_vars /\ WF_vars(SysNext)
+\* ... and queries keep arriving
+\* (fairness per goroutine here: the picker's steps recur for ever and must not stand in for the others)
+FairPerGoroutine ==
+  /\ \A f \in Fillers : WF_vars((f \in Spawned \cup Pickers /\ FillCheck(f)) \/ FillRecheck(f) \/ FillEnd(f))
+  /\ \A c \in ConnIds : WF_vars(Dial(c, TRUE) \/ Dial(c, FALSE)) /\ WF_vars(ConnectAdd(c)) /\ WF_vars(HandleError(c))
+  /\ \A k \in Closers : WF_vars(Close2(k))
+SpecPicks == Init /\ [][Next]_vars /\ FairPerGoroutine /\ \A p \in Pickers : WF_vars(Pick(p))
 SpecNoFair == Init /\ [][Next]_vars
 
 (* ---- what C17 demands -------------------------------------------------------- *)
@@ -322,6 +346,10 @@ Connecting == {c \in ConnIds : cpc[c] \in {"dial", "connected"}}
 FillJoin == Connecting # {} => filling
 \* no pool method waits for the lock it holds (closing a connection may call back into HandleError)
 NoSelfDeadlock == ~lockDead
+
+\* A connection reported closed is replaced, a fill that only partly succeeded is made up for: while queries keep
+\* arriving an open pool is at its size again once the (bounded) faults are over
+Replenished == <>[](closed \/ lockDead \/ Cardinality(conns \ dead) = Size)
 
 \* liveness: a fill ends; whatever the dialer opened for a closed pool gets closed; Close returns
 FillEnds == filling ~> ~filling
